@@ -142,6 +142,7 @@ def macro_grammars(seed=0):
             A(Mac("Par", (Grp((Tm("a"), Tm("b"))),)), "c"),
         ], pub=True),
     ], tags=["nested macro uses", "Pair<a,b> vs Pair<b,a>", "macro arg = group", "distinct instantiations"]))
+    gs[-1].min_n = 7
 
     # same macro instantiated with a literal and with a nonterminal; macro calling macro with its parameter
     gs.append(Grammar("mac_forward", terms("a b , ;"), [
@@ -150,6 +151,7 @@ def macro_grammars(seed=0):
         NT("Item", [A("a"), A("b", "b")]),
         NT("S", [A(Mac("Two", (Nt("Item"),))), A("b", Mac("Two", (Tm("a"),)))], pub=True),
     ], tags=["macro forwarding its parameter", "Sep<T,X> with two separators", "literal vs nonterminal argument"]))
+    gs[-1].min_n = 6
     return gs
 
 
